@@ -26,9 +26,16 @@ for d in sorted(glob.glob(os.path.join(ROOT, "seeded", "*"))):
         parts = l.split(" ", 3)
         if len(parts) >= 3 and parts[2].startswith("exit="):
             checks[parts[1]] = int(parts[2][5:])
+    stale = "patch does not apply" in out
     meta["recheck"] = {"when": time.strftime("%Y-%m-%dT%H:%M:%SZ", time.gmtime()), "exit": checks}
+    if stale:
+        # written against an older tree: a later fix: commit rewrote the same lines
+        meta["recheck"]["stale"] = "does not apply to the current tree any more (conflicts with a later fix: commit)"
     json.dump(meta, open(mp, "w"), indent=1)
     bad = [p for p in props if checks.get(p) != 1]
+    if stale:
+        print(os.path.basename(d), "STALE (patch does not apply to the current tree)", flush=True)
+        continue
     print(os.path.basename(d), checks, "LOST" if bad else "ok", flush=True)
     if bad:
         lost.append(os.path.basename(d))
